@@ -133,6 +133,7 @@ type ScenarioCfg struct {
 	MaxHidden    int
 	HugeFitness  bool // also draw fitness scales close to the largest finite float64 (sums overflow to +Inf)
 	NoSwitch     bool // never change the options object during the history
+	ModularStart bool // one history in six is spawned from a modular start genome
 }
 
 func genScenario(cfg ScenarioCfg) *rapid.Generator[Scenario] {
@@ -141,6 +142,7 @@ func genScenario(cfg ScenarioCfg) *rapid.Generator[Scenario] {
 		maxHidden = 2
 	}
 	gg := genGenomeSpec(GenomeCfg{MinGenes: 1, MaxHidden: maxHidden, MaxGenes: 10, ModestWeight: true})
+	mg := genGenomeSpec(GenomeCfg{MinGenes: 1, MaxHidden: maxHidden, MaxGenes: 10, ModestWeight: true, Modules: true}) // modules listed in ascending order of ids and innovation numbers, as getNextGeneInnovNum assumes
 	if len(cfg.FitnessKinds) == 0 {
 		cfg.FitnessKinds = allFitnessKinds
 	}
@@ -169,6 +171,9 @@ func genScenario(cfg ScenarioCfg) *rapid.Generator[Scenario] {
 			sc.Opts.Parallel = rapid.IntRange(0, 3).Draw(t, "parallel") == 0
 		case 2:
 			sc.Opts.Parallel = true
+		}
+		if cfg.ModularStart && rapid.IntRange(0, 5).Draw(t, "modular start") == 0 {
+			sc.Ctor, sc.Start = "spawn", mg.Draw(t, "modular start genome")
 		}
 		if sc.Ctor == "reread" {
 			sc.PreEpochs = rapid.IntRange(1, 8).Draw(t, "pre epochs")
@@ -556,6 +561,8 @@ func (l *ledger) update(pop *genetics.Population, strictNew bool, rec *Rec) erro
 	}
 	return nil
 }
+
+const roleControl = 99
 
 type sameLinkTwoNumbers struct {
 	k    [3]int
